@@ -837,6 +837,47 @@ class Gen:
             lines = body
         return '\n'.join(lines) + '\n'
 
+    def multi_inclusion(self):
+        """X-macro idiom: an unguarded header with an #if/#elif/#else chain on a selector, included several times
+        with a different selector each time (every inclusion is a new traversal of the same header text)"""
+        r = self.r
+        self.f.add('multi-inclusion')
+        n = r.randint(2, 4)
+        by_define = r.random() < 0.35
+        hl = []
+        for k in range(1, n + 1):
+            kw = '#if' if k == 1 else '#elif'
+            hl.append('%s defined(XSEL%d)' % (kw, k) if by_define else '%s XSEL == %d' % (kw, k))
+            hl.append('int xm_group_%d ;' % k)
+            if r.random() < 0.4:
+                hl.append(self.text_line())
+            if r.random() < 0.2:
+                hl += ['#if XSEL_INNER', 'int xm_inner_%d ;' % k, '#else', 'int xm_noinner_%d ;' % k, '#endif']
+        if r.random() < 0.7:
+            hl += ['#else', 'int xm_group_other ;']
+        hl.append('#endif')
+        if not by_define:
+            hl.append('#undef XSEL')
+        self.case.files['xm.h'] = '\n'.join(hl) + '\n'
+        out = []
+        seq = [r.randint(1, n + 1) for _ in range(r.randint(2, 5))]
+        for k in seq:
+            if by_define:
+                out.append('#define XSEL%d' % k)
+            else:
+                out.append('#define XSEL %d' % k)
+            inner = r.random() < 0.3
+            if inner:
+                out.append('#define XSEL_INNER %d' % r.randint(0, 1))
+            out.append('#include "xm.h"')
+            if by_define:
+                out.append('#undef XSEL%d' % k)
+            if inner:
+                out.append('#undef XSEL_INNER')
+            if r.random() < 0.3:
+                out.append(self.text_line())
+        return out
+
     # ------------------------------------------------------------------ options
     def options(self):
         r = self.r
@@ -904,6 +945,8 @@ class Gen:
         lines = list(self.NUMFUN_PRELUDE) + self.block(0, budget, -1)
         if getattr(self, 'fun_d', False):
             lines.append('DF(3) DF(a b)')
+        if r.random() < 0.35:
+            lines += self.multi_inclusion()
         # make sure every case expands something
         lines.append(self.text_line())
         lines.append(self.join(self.call()) + ' ;')
